@@ -192,6 +192,17 @@ def m_try_from(ctx, args):
             return eng.inline(ctx.st, ctx.fr, ctx.site, body, r[1], args)
     x = val(ctx, args[0])
     s, d = _short(src) if src else "?", _short(tgt) if tgt else "?"
+    if d == "Box" and s == "Box" and tgt[2] and tgt[2][0][0] == "array":
+        # Box<[T]> -> Box<[T; N]>: succeeds iff the length is N; the contents are unchanged
+        n = tgt[2][0][2]
+        inner = x[1] if x[0] == "box" else x
+        have = vec_len(eng, inner)
+
+        def nm(z):
+            return z[1] if isinstance(z, tuple) and z and z[0] in ("cparam", "const") else z
+        if have is not None and str(nm(have)) == str(nm(n)):
+            return ok(("box", inner))
+        return ("ite", eng.bdd.var(("len_is", inner, n)), ok(("box", inner)), err(x))
     if d == "array" and s in ("slice", "array", "Vec", "GenericArray"):
         n = tgt[2]
         if s == "slice" and x[0] == "slice_of" and isinstance(n, int) and x[3][0] == "int" and x[2][0] == "int" and x[3][1] - x[2][1] == n:
@@ -680,8 +691,10 @@ def m_array_map(ctx, args):
     if n is None and t is not None and strip_refs(t)[0] == "array":
         n = strip_refs(t)[2]
         n = n[1] if isinstance(n, tuple) and n and n[0] == "int" else n
-    if isinstance(n, int) and n <= 64:
+    if isinstance(n, int) and n <= 8:
         return per_iter([eng.index_value(v, ("int", i)) for i in range(n)])
+    if n is not None and vec_len(eng, v) is None:
+        eng.lens[v] = n
     return realise(ctx, ("map", args[1], next(eng.nuid), ("vals", v)))
 
 
@@ -893,7 +906,7 @@ def elem_of(shape, uid, start=0):
     if k == "enumerate":
         a, n = elem_of(shape[1], uid, start)
         return ("tuple", (("idx", uid), a)), n
-    if k == "take":
+    if k in ("take", "rev"):
         return elem_of(shape[1], uid, start)
     if k == "map":
         # body refers to its own binder; instantiate it with the outer elements
@@ -996,7 +1009,7 @@ def leaves_of(shape):
         return leaves_of(shape[1]) + leaves_of(shape[2])
     if k in ("enumerate",):
         return leaves_of(shape[1])
-    if k == "take":
+    if k in ("take", "rev"):
         return leaves_of(shape[1])
     if k == "map":
         return leaves_of(shape[3])
@@ -1010,11 +1023,17 @@ def shape_len(eng, shape):
     k = shape[0]
     if k == "zip":
         a, b = shape_len(eng, shape[1]), shape_len(eng, shape[2])
+        if a == "inf":
+            return b
+        if b == "inf":
+            return a
         if a == b:
             return a
         if isinstance(a, int) and isinstance(b, int):
             return min(a, b)
         return None
+    if k == "rev":
+        return shape_len(eng, shape[1])
     if k in ("enumerate", "map"):
         return shape_len(eng, shape[1] if k == "enumerate" else shape[3])
     if k == "take":
@@ -1034,6 +1053,8 @@ def shape_len(eng, shape):
     if k == "adapter" and shape[1] in ("filter", "skip_while") and is_stream(shape[2]):
         return "inf"
     if k == "range":
+        if shape[2] == ("inf",):
+            return "inf"
         if shape[1][0] == "int" and shape[2][0] == "int":
             return shape[2][1] - shape[1][1]
         if shape[1] == ("int", 0) and shape[2][0] == "cparam":
@@ -1158,6 +1179,8 @@ def as_iter(ctx, a, i):
             return cur          # streams carry no position: borrowing one yields the same unbounded stream
     if a[0] == "struct" and a[1].endswith("ops::Range") and len(a[3]) == 2:
         return ("iter", ("range", a[3][0], a[3][1]))
+    if a[0] == "struct" and a[1].endswith("ops::RangeFrom") and len(a[3]) == 1:
+        return ("iter", ("range", a[3][0], ("inf",)))
     t = ctx.arg_ty(i)
     if t is not None and t[0] == "adt" and t[1].endswith("ops::Range"):
         return ("iter", ("range", ctx.eng.proj_field(a, 0, "start"), ctx.eng.proj_field(a, 1, "end")))
@@ -1166,7 +1189,7 @@ def as_iter(ctx, a, i):
 
 @model("std::iter::Iterator::zip")
 def m_zip(ctx, args):
-    a, b = as_iter(ctx, args[0], 0), args[1]
+    a, b = as_iter(ctx, args[0], 0), as_iter(ctx, args[1], 1)
     if b[0] != "iter":
         # zip accepts any IntoIterator
         b = m_into_iter_value(ctx, b, ctx.arg_ty(1))
@@ -1369,7 +1392,7 @@ def m_any_all(ctx, args):
             eng.unroll[puid] = (kk, n, shape)
             try:
                 v = instantiate_elem(eng, ctx, eng.subst(e, sub))
-                c = eng.tobdd(call_closure(ctx, args[1], [v]))
+                c = eng.tobdd(call_closure(ctx, args[1], [("refv", v) if getattr(ctx, "wrap_ref", False) else v]))
             finally:
                 eng.binders.pop()
                 eng.unroll.pop(puid, None)
@@ -1388,7 +1411,7 @@ def m_any_all(ctx, args):
     eng.binders.append(uid)
     try:
         v = instantiate_elem(eng, ctx, e)
-        c = eng.tobdd(call_closure(ctx, args[1], [v]))
+        c = eng.tobdd(call_closure(ctx, args[1], [("refv", v) if getattr(ctx, "wrap_ref", False) else v]))
     finally:
         eng.binders.pop()
     if is_all:
@@ -1396,6 +1419,14 @@ def m_any_all(ctx, args):
     info.early = [(c, "any")]
     atom = eng.bdd.var(("anyiter", uid, ("b", c)))
     return ("b", eng.bdd.NOT(atom) if is_all else atom)
+
+
+@model("std::vec::Vec::into_boxed_slice", "std::vec::Vec::into_boxed_slice")
+def m_into_boxed_slice(ctx, args):
+    v = val(ctx, args[0])
+    if v[0] == "collected":
+        return ("box", v[1])
+    return ("box", v)
 
 
 @model("std::slice::from_ref", "core::slice::from_ref", "std::array::from_ref")
@@ -1427,7 +1458,15 @@ def m_find_stream(ctx, args):
     """`stream.find_map(f)` / `stream.find(p)` on an unbounded stream of independent draws = rejection sampling:
     the result is Some(value of the first accepted draw), which is a fresh draw for which f is Some / p holds."""
     eng = ctx.eng
-    a = as_iter(ctx, args[0], 0)
+    a = _iter_arg(ctx, args[0])
+    if a[0] == "iter" and not is_stream(a[1]) and ctx.oq.endswith("::find"):
+        # finite collection: Some(first match) iff any element matches
+        rc = _Renamed(ctx, "std::iter::Iterator::any")
+        rc.__dict__["wrap_ref"] = True          # `find` hands the predicate a reference to the item
+        r = m_any_all(rc, [("iter", a[1]), args[1]])
+        if r[0] == "b":
+            return eng.mk_ite(r[1], some(("first_match", r[1])), NONE)
+        return ("call", ctx.oq, tuple(args))
     if a[0] != "iter" or not is_stream(a[1]) or (a[1][0] == "adapter" and a[1][1] == "skip_while"):
         return ("call", ctx.oq, tuple(args))
     e, _ = elem_of(a[1], 0)
@@ -1465,6 +1504,11 @@ def m_repeat_with(ctx, args):
 def m_iter_adapter(ctx, args):
     a = args[0]
     name = ctx.oq.split("::")[-1]
+    if name == "rev" and a[0] == "iter" and not is_stream(a[1]):
+        inner = a[1]
+        if inner[0] == "rev":
+            return ("iter", inner[1])           # rev().rev()
+        return ("iter", ("rev", inner))
     if a[0] == "iter":
         return ("iter", ("adapter", name, a[1], tuple(args[1:])))
     return ("call", ctx.oq, tuple(args))
